@@ -122,4 +122,51 @@ def _spec_contracts():
   return out
 
 
-CONTRACTS = _spec_contracts() + _sortkey_contracts()
+def _cellv(ip, col, row_id):
+  f = ip.uf("cell_value", [opaque_sort("SortCol"), z3.IntSort()], opaque_sort("Val"))
+  return SOpq(f(col.fields["_c"].t, ip.int_term(row_id)), "Val")
+
+
+def _conv(name):
+  def f(ip, col, v):
+    g = ip.uf(name, [opaque_sort("SortCol"), opaque_sort("Val")], opaque_sort("Val"))
+    return SOpq(g(col.fields["_c"].t, v.t), "Val")
+  return f
+
+
+def _sortkey_init_contracts():
+  """SortKey.__init__: explicit search values are kept exactly as given (they are what the caller
+  compares with); without them the key holds the row's own cell values."""
+  from vlib.pysym.interp import SelfModel
+  out = []
+  ColS = lambda: Obj("Column", _c=Opaque("SortCol"), consts={
+      "get_cell_value": SelfModel("column.get_cell_value(row_id) (pure read)", _cellv),
+      # any conversion a column offers is an arbitrary function of the value
+      "convert": SelfModel("column.convert (arbitrary function)", _conv("col_convert")),
+      "_convert_raw_value": SelfModel("column._convert_raw_value (arbitrary function)",
+                                      _conv("col_convert_raw"))})
+  for n in (1, 2):
+    for given in (True, False):
+      params = dict(self=Obj("SortKey"), row_id=Int)
+      for i in range(n): params["col%d" % i] = ColS()
+      if given:
+        params["values"] = Tup(*([Val] * n))
+        ens = {"explicit_values_kept": "self.values == values", "row_id_kept": "self.row_id == row_id"}
+      else:
+        params["values"] = None
+        ens = {"own_cell_values": "self.values == (%s)" % "".join(
+                 "cellv(col%d, row_id), " % i for i in range(n)),
+               "row_id_kept": "self.row_id == row_id"}
+      c = Contract(
+        prefix="C13.sortkey_init_%d_%s" % (n, "explicit" if given else "own"),
+        target="sort_key:make_sort_key.SortKey.__init__", file="sandbox/grist/sort_key.py",
+        params=params, ensures=ens,
+        defs={"cellv": lambda ip, col, r: _cellv(ip, col, r)},
+        notes="closure variable col_sort_spec = [(col_i, +1)] with %d column(s)" % n)
+      c.closure_env = (lambda n: lambda args: {
+          "col_sort_spec": [(args["col%d" % i], 1) for i in range(n)]})(n)
+      out.append(c)
+  return out
+
+
+CONTRACTS = _spec_contracts() + _sortkey_contracts() + _sortkey_init_contracts()
